@@ -683,32 +683,53 @@ func recorderTracer(out *BuildOut, mu *sync.Mutex) *sourcebundle.BuildTracer {
 	}
 }
 
-func doAdd(ctx context.Context, b *sourcebundle.Builder, a AddCall, mkFinder func(id string) sourcebundle.DependencyFinder) (ao AddOut) {
+// parsedAdd is an Add call with its address already parsed (so that the call
+// itself is the only thing a scheduled thread executes).
+type parsedAdd struct {
+	kind    string
+	remote  sourceaddrs.RemoteSource
+	reg     sourceaddrs.RegistrySource
+	final   sourceaddrs.RegistrySourceFinal
+	allowed versions.Set
+	finder  string
+}
+
+func parseAdd(a AddCall) parsedAdd {
+	p := parsedAdd{kind: a.Kind, finder: a.Finder}
+	var err error
+	switch a.Kind {
+	case "remote":
+		p.remote, err = sourceaddrs.ParseRemoteSource(a.Addr)
+	case "registry":
+		p.reg, err = sourceaddrs.ParseRegistrySource(a.Addr)
+		p.allowed = ParseAllowed(a.Allowed)
+	case "final":
+		p.final, err = sourceaddrs.ParseFinalRegistrySource(a.Addr)
+	}
+	if err != nil {
+		panic("INTERNAL: bad add address " + a.Addr + ": " + err.Error())
+	}
+	return p
+}
+
+func doAdd(ctx context.Context, b *sourcebundle.Builder, a AddCall, mkFinder func(id string) sourcebundle.DependencyFinder) AddOut {
+	return doParsedAdd(ctx, b, parseAdd(a), mkFinder(a.Finder))
+}
+
+func doParsedAdd(ctx context.Context, b *sourcebundle.Builder, a parsedAdd, finder sourcebundle.DependencyFinder) (ao AddOut) {
 	defer func() {
 		if r := recover(); r != nil {
 			ao.Panic = fmt.Sprint(r)
 		}
 	}()
 	var diags sourcebundle.Diagnostics
-	switch a.Kind {
+	switch a.kind {
 	case "remote":
-		src, err := sourceaddrs.ParseRemoteSource(a.Addr)
-		if err != nil {
-			panic("INTERNAL: bad add address " + a.Addr + ": " + err.Error())
-		}
-		diags = b.AddRemoteSource(ctx, src, mkFinder(a.Finder))
+		diags = b.AddRemoteSource(ctx, a.remote, finder)
 	case "registry":
-		src, err := sourceaddrs.ParseRegistrySource(a.Addr)
-		if err != nil {
-			panic("INTERNAL: bad add address " + a.Addr + ": " + err.Error())
-		}
-		diags = b.AddRegistrySource(ctx, src, ParseAllowed(a.Allowed), mkFinder(a.Finder))
+		diags = b.AddRegistrySource(ctx, a.reg, a.allowed, finder)
 	case "final":
-		src, err := sourceaddrs.ParseFinalRegistrySource(a.Addr)
-		if err != nil {
-			panic("INTERNAL: bad add address " + a.Addr + ": " + err.Error())
-		}
-		diags = b.AddFinalRegistrySource(ctx, src, mkFinder(a.Finder))
+		diags = b.AddFinalRegistrySource(ctx, a.final, finder)
 	}
 	for _, d := range diags {
 		ao.Diags = append(ao.Diags, diagOut(d))
